@@ -487,7 +487,10 @@ func (rep *Report) writeEvidence(path, cmdline string) {
 	ev := map[string]any{
 		"property_id": rep.Prop, "tier": rep.Tier, "seed": rep.Seed, "level": "proof",
 		"coverage": map[string]any{
+			// obligations = those this run claims proved; an obligation listed as an open known finding is
+			// generated and run like any other but reported apart (known_finding_obligations), never as discharged
 			"obligations": rep.Total - len(rep.KnownHit), "discharged": rep.Discharged,
+			"obligations_generated": rep.Total, "known_finding_obligations": len(rep.KnownHit),
 			"checker_cmd": cmdline, "trusted_base": tb, "samples": rep.Samples,
 			"functions_under_contract": rep.Funcs, "by_solver": rep.BySolver, "second_solver_agreement": rep.Second,
 			"vacuity_covers_reachable": rep.Covers - len(rep.Unreachable), "vacuity_covers_total": rep.Covers, "unreachable_paths": rep.Unreachable,
